@@ -617,7 +617,15 @@ class StageSummary:
                         if op in ("<", "<="):
                             sa, sb = sb, sa
                             op = {"<": ">", "<=": ">="}[op]
-                        self.guards.append({"expr": sympy.simplify(sa - sb), "op": op, "node": x})
+                        e_ = sympy.simplify(sa - sb)
+                        # `if(C) return;` in front of the stage's work guards it by !C: the same guard as `if(!C){ work }`
+                        br = [y for y in x["c"][1:] if y is not None]
+                        th = br[0] if br else None
+                        th_items = [th] if th is not None and th.get("k") != "CompoundStmt" else (kids(th) if th is not None else [])
+                        early = len(br) == 1 and len(th_items) == 1 and th_items[0].get("k") == "ReturnStmt" and not kids(th_items[0])
+                        if early:
+                            e_, op = sympy.simplify(-e_), {">": ">=", ">=": ">"}[op]
+                        self.guards.append({"expr": e_, "op": op, "node": x, "early": early})
             if k in ("CallExpr", "CXXMemberCallExpr"):
                 callee = strip(kids(x)[0])
                 nm = callee.get("name")
@@ -653,7 +661,15 @@ class StageSummary:
         return None
 
     def _under_guard(self, n):
-        return any(a.get("k") == "IfStmt" and any(a is g["node"] for g in self.guards) for a in tbf.ancestors(n))
+        if any(a.get("k") == "IfStmt" and any(a is g["node"] for g in self.guards) for a in tbf.ancestors(n)):
+            return True
+        # after an early-return guard of an enclosing block
+        for g in self.guards:
+            if g.get("early"):
+                blk = g["node"].get("_p")
+                if blk is not None and any(a is blk for a in tbf.ancestors(n)) and (n["l"][1], n.get("b", 0)) > (g["node"]["l"][1], g["node"].get("b", 0)):
+                    return True
+        return False
 
     def call_signatures(self):
         """set of (method, tuple(args)) — the submissions of this stage"""
